@@ -6,3 +6,6 @@ export GOFLAGS=-mod=mod GOPROXY=off GOSUMDB=off GOTOOLCHAIN=local CGO_ENABLED=0
 mkdir -p bin evidence replays
 (cd engine && go build -o ../bin/vcheck ./cmd/vcheck)
 ./bin/vcheck warm
+# engine self-tests (litmus outcome sets) and a first build of the -race workloads, so that checks hit the cache
+(cd engine && go test -count=1 ./vs/ >/dev/null 2>&1 || echo "WARNING: engine self-tests failed")
+(cd engine && CGO_ENABLED=1 go test -race -count=1 -run XXX ./racepass/ >/dev/null 2>&1 || echo "WARNING: race pass does not build (CGO missing?); checks will record that it could not run")
